@@ -413,6 +413,24 @@ func c13(e *Env) {
 			if len(h.Unsolicited) > 0 {
 				return
 			}
+			if h.Connected() && c.Choose("idle-gap?", 6) == 5 {
+				// the client says nothing for a while (seconds to minutes - beyond every time-out the
+				// proxy is configured with): whatever order of handshake frames came before, a
+				// connection that was usable stays usable, and nothing arrives on it unasked
+				gap := []time.Duration{3 * time.Second, 11 * time.Second, 35 * time.Second, 2 * time.Minute}[c.Choose("idle-gap", 4)]
+				w.RunUntil(func() bool { return false }, gap)
+				if w.Stopped() {
+					return
+				}
+				if !h.Connected() {
+					w.Violate("c13-idle", "idle-connection-closed", fmt.Sprintf("hostile connection %d was open after frame #%d (%s) and was closed by the proxy while the client said nothing for %v", k, i, desc, gap))
+					return
+				}
+				if len(h.Unsolicited) > 0 {
+					return
+				}
+				e.Res.Stats["probe.c13.client_idle_between_handshake_frames"]++
+			}
 			if !outage && c.Choose("canary?", 3) == 0 && !checkCanary() {
 				return
 			}
